@@ -11,3 +11,16 @@ package statsd
 //@   requires len(msg) < 4294967296
 //@   loop 1 invariant l.MetricPool != nil && len(msg) < 4294967296
 //@   modifies everything
+
+// ---- aggregator -------------------------------------------------------------------------------
+
+// PctOK: every configured percentile is within [-100, 100] (start-up validation).
+//@ pred PctOK(a *MetricAggregator) := forall p float64 :: p in a.percentThresholds ==> -100.0 <= p && p <= 100.0
+
+// The timers closure of Flush, called by Timers.Each for every (key, tagsKey) of the map.
+//@ func (*MetricAggregator).Flush$2
+//@   floats real
+//@   requires a != nil && a.metricMap != nil && a.metricMap.Timers[key] != nil && PctOK(a)
+//@   loop 1 invariant 1 <= i
+//@   loop 3 invariant 0 <= i
+//@   modifies everything
